@@ -1,6 +1,129 @@
-use melvm::VerifExecutor as Executor;
+mod alloc;
+mod codec;
+mod js;
+mod vm;
+
+#[global_allocator]
+static GLOBAL: alloc::Counting = alloc::Counting;
+
+use rand::Rng;
+use serde_json::json;
+use std::io::Write;
+
+pub struct Args {
+    pub map: std::collections::HashMap<String, String>,
+}
+impl Args {
+    fn parse(v: &[String]) -> Args {
+        let mut map = std::collections::HashMap::new();
+        let mut i = 0;
+        while i < v.len() {
+            if let Some(k) = v[i].strip_prefix("--") {
+                if i + 1 < v.len() && !v[i + 1].starts_with("--") {
+                    map.insert(k.to_string(), v[i + 1].clone());
+                    i += 2;
+                } else {
+                    map.insert(k.to_string(), "1".to_string());
+                    i += 1;
+                }
+            } else {
+                i += 1;
+            }
+        }
+        Args { map }
+    }
+    pub fn u64(&self, k: &str, d: u64) -> u64 {
+        self.map.get(k).map(|s| s.parse().unwrap()).unwrap_or(d)
+    }
+    pub fn s(&self, k: &str, d: &str) -> String {
+        self.map.get(k).cloned().unwrap_or(d.to_string())
+    }
+}
+
+pub struct Out {
+    w: std::io::BufWriter<std::fs::File>,
+    pub n: u64,
+}
+impl Out {
+    pub fn new(path: &str) -> Out {
+        Out { w: std::io::BufWriter::new(std::fs::File::create(path).unwrap()), n: 0 }
+    }
+    pub fn put(&mut self, v: serde_json::Value) {
+        serde_json::to_writer(&mut self.w, &v).unwrap();
+        self.w.write_all(b"\n").unwrap();
+        self.n += 1;
+    }
+    pub fn finish(mut self) -> u64 {
+        self.w.flush().unwrap();
+        self.n
+    }
+}
+
+fn cmd_vm(a: &Args) {
+    let seed = a.u64("seed", 1);
+    let n = a.u64("n", 1000);
+    let fam = a.s("fam", "mix");
+    let mut out = Out::new(&a.s("out", "vm.ndjson"));
+    let mut r = vm::gen_random_seeded(seed);
+    for i in 0..n {
+        let (name, ops) = match fam.as_str() {
+            "uniform" => ("uniform", vm::gen_uniform(&mut r)),
+            "typed" => ("typed", vm::gen_typed(&mut r)),
+            "loopy" => ("loopy", vm::gen_loopy(&mut r)),
+            "sig" => ("sig", vm::gen_sig(&mut r)),
+            "hash" => ("hash", vm::gen_hash(&mut r)),
+            _ => match i % 10 {
+                0 | 1 => ("uniform", vm::gen_uniform(&mut r)),
+                2..=5 => ("typed", vm::gen_typed(&mut r)),
+                6 | 7 => ("loopy", vm::gen_loopy(&mut r)),
+                8 => ("sig", vm::gen_sig(&mut r)),
+                _ => ("hash", vm::gen_hash(&mut r)),
+            },
+        };
+        let heap = if r.gen_bool(0.3) { vm::rand_heap(&mut r) } else { Default::default() };
+        out.put(vm::run_record(name, &ops, heap, 200_000));
+    }
+    let n = out.finish();
+    println!("{}", json!({"records": n}));
+}
+
+fn cmd_vmcost(a: &Args) {
+    let thorough = a.s("tier", "quick") == "thorough";
+    let mut out = Out::new(&a.s("out", "vmcost.ndjson"));
+    vm::cost_families(&mut out, thorough, a.u64("seed", 1));
+    let n = out.finish();
+    println!("{}", json!({"records": n}));
+}
+
+fn cmd_codec(a: &Args) {
+    let seed = a.u64("seed", 1);
+    let mut out = Out::new(&a.s("out", "codec.ndjson"));
+    let mut r = vm::gen_random_seeded(seed);
+    match a.s("fam", "quick").as_str() {
+        "exh" => codec::exhaustive(&mut out, a.u64("len", 2) as usize, a.u64("lo", 0) as u8, a.u64("hi", 255) as u8),
+        "classes" => codec::arg_classes(&mut out, &mut r),
+        "random" => codec::random_strings(&mut out, &mut r, a.u64("n", 5000)),
+        _ => {
+            for len in 0..=2 {
+                codec::exhaustive(&mut out, len, 0, 255);
+            }
+        }
+    }
+    let n = out.finish();
+    println!("{}", json!({"records": n}));
+}
+
 fn main() {
-    let e = Executor::new(vec![], Default::default());
-    println!("{} {}", e.pc(), e.verif_loop_depth());
-    let _ = melvm::opcode::VERIF_WEIGH_WORK.load(std::sync::atomic::Ordering::Relaxed);
+    std::panic::set_hook(Box::new(|_| {}));
+    let argv: Vec<String> = std::env::args().collect();
+    let a = Args::parse(&argv[2.min(argv.len())..]);
+    match argv.get(1).map(|s| s.as_str()) {
+        Some("vm") => cmd_vm(&a),
+        Some("codec") => cmd_codec(&a),
+        Some("vmcost") => cmd_vmcost(&a),
+        _ => {
+            eprintln!("usage: harness <vm|...> [--key value]...");
+            std::process::exit(2);
+        }
+    }
 }
